@@ -18,6 +18,8 @@ CLAIMED = {
          "Shows for all paths that a segment enters a victim map only on the accepting edge of latest-time <= horizon (horizon = now - retention, org-filtered candidates, every candidate examined), that durable meta entries are removed last, that shared tags-tree directories are subtracted after all marks, and that both meta files are rewritten via tmp+rename. The arithmetic of the volume/inode passes and post-pass searchability are not decided."),
  "C18": ("§3 C18", "static analysis: dominance GUARD on ChecksumFile.readChunkAt, type-filtered interprocedural value-flow closure of column-file descriptors (who-may-read), error-edge GUARD on every ChecksumFile.ReadAt caller, cache-key typestate rule, writer pairing",
          "Proves on all paths of readChunkAt that bytes of a checksummed chunk are returned only under the CRC-equal edge (CRC over exactly the bytes read, compared with the stored word, length bounded by the buffer, legacy branch only for legacy files); shows by value-flow closure that no descriptor that can hold a .csg file is read outside ChecksumFile; shows every reader decodes and marks a block as loaded only on the err==nil edge of the checksummed read; shows writeWip writes only through the chunk writer and flushes before success. Robustness of un-checksummed decoders is not decided."),
+ "C11": ("§3 C11", "static analysis: forward may/must dataflow of held mutex classes over SSA with derived lock-wrapper summaries (PAIR), lock-order graph with transitive may-acquire summaries and SCC cycle detection (LOCKORDER), must-hold checking of guarded tables propagated up the static call graph (HELD), dominance ORDER on the rotation hand-over",
+         "Covers every sync.Mutex/RWMutex operation of the ingest, metadata and query packages (all packages in the thorough tier) on all control-flow paths: released on every exit, never released unheld, never re-acquired; the class-level held->acquired relation is acyclic; every access of the shared segment tables happens under the table's lock in the accessor or all callers, and insertion into the open-store table is re-checked under the write lock; a segment is made visible as rotated before it leaves the unrotated table and both snapshots are read unrotated-first. Races on unguarded fields, channel/wait-group liveness and equality with a sequential execution are not decided."),
 }
 
 NOT_APPLICABLE = {
